@@ -429,24 +429,20 @@ Definition pcheck (c : case) : bool :=
 
 (* ------------------------------------------------------------------ known classes (pinned tree only) *)
 (* class mixed-new-references: some committed write of the history introduces references that mix a
-   live target with a target that is not live (refint::check_uuids_exist_fast accepts it).
-   class dyngroup-lists-recycled: the built-in dynamic groups idm_all_persons / idm_all_accounts are
-   re-evaluated with their raw filter, which also matches RECYCLED accounts
-   (dyngroup::apply_dyngroup_change, reached when a revived account is re-added to the dynamic groups
-   of its RecycledDirectMemberOf stash; dyngroup::post_modify for entries that arrive recycled through
-   replication).  The dynamic groups are outside the tracked universe: the class is recognised by its
-   trigger — a committed revive of an account (person or OAuth2 client) while another account is in
-   the recycle bin; on two replicas also a replication that leaves an account recycled, and a uuid
-   created on both replicas. *)
+   live target with a target that is not live (refint::check_uuids_exist_fast accepts it); on two
+   replicas also a replication whose added references mix them (refint::post_repl_incremental uses
+   the same fast check, so nothing is cleaned).
+   class dyngroup-lists-recycled-after-replication (two replicas only): dyngroup::post_modify /
+   post_create test candidate entries against the raw dynamic-group filter without masking recycled
+   ones, so on the consumer idm_all_persons / idm_all_accounts list as DynMember an account that
+   arrives (or stays, when a uuid conflict forces re-assertion) RECYCLED, and the conflict copies.
+   The dynamic groups are outside the tracked universe: the class is recognised by its trigger — a
+   replication that leaves an account (person or OAuth2 client) recycled on the consumer, or a uuid
+   created on both replicas.  (The single-server form — full re-evaluation of a dynamic group after
+   the revive of an account — was repaired by /repo commit bca7876 and is no longer a class.) *)
 Definition is_account (e : ent) : bool := (ekind e =? 0) || (ekind e =? 3).
-Definition dyn_trigger (s : state) (o : op) : bool :=
-  match o with
-  | ORevive x =>
-      existsb (fun e => in_revs x e && is_account e) s
-      && existsb (fun e => is_rec (est e) && is_account e && negb (in_revs x e)) s
-  | _ => false
-  end.
-Definition known_step (s : state) (o : op) : bool := mixed s o || dyn_trigger s o.
+Definition created_ids (o : op) : list N := match o with OCreate l => map fst l | _ => [] end.
+Definition known_step (s : state) (o : op) : bool := mixed s o.
 Fixpoint known_run (s : state) (steps : list ostep) : bool :=
   match steps with
   | [] => false
@@ -454,7 +450,12 @@ Fixpoint known_run (s : state) (steps : list ostep) : bool :=
       let '(s', c) := step false s o in
       ((c =? 0) && known_step s o) || known_run s' r
   end.
-Definition created_ids (o : op) : list N := match o with OCreate l => map fst l | _ => [] end.
+(* observable analogue of [repl_mixed]: the stored references that a replication added on the consumer
+   mix a live target with one that is not live *)
+Definition obs_repl_mixed (pre post : state) : bool :=
+  let new := fresh_of (flat_map (fun e => targets (erefs e)) pre)
+                      (flat_map (fun e => if is_live (est e) then targets (erefs e) else []) post) in
+  existsb (live_id post) new && existsb (fun t => negb (live_id post t)) new.
 Fixpoint rknown_run (a b : list oent) (steps : list rstep) : bool :=
   match steps with
   | [] => false
@@ -464,7 +465,8 @@ Fixpoint rknown_run (a b : list oent) (steps : list rstep) : bool :=
            || existsb (fun x => present_id (map of_obs (if onB then a else b)) x) (created_ids o)))
       || (if onB then rknown_run a post r else rknown_run post b r)
   | RRepl toB _ post _ :: r =>
-      existsb (fun e => is_rec (est e) && is_account e) (map of_obs post)
+      obs_repl_mixed (map of_obs (if toB then b else a)) (map of_obs post)
+      || existsb (fun e => is_rec (est e) && is_account e) (map of_obs post)
       || (if toB then rknown_run a post r else rknown_run post b r)
   end.
 Definition known_gen (c : case) : bool :=
